@@ -232,7 +232,6 @@ Proof.
   { rewrite E in H. eapply Forall_app_r; eauto. }
   destruct (drop_rows s (r0 :: rest)) as [|d0 drest] eqn:Ed; [reflexivity|].
   rewrite (enc_rows_length plen _ Hd), Nat.div_mul by lia.
-  destruct (length (d0 :: drest) <=? 1)%nat; [reflexivity|].
   apply cut_after_rows; [assumption | lia].
 Qed.
 
@@ -275,19 +274,17 @@ Proof. induction 1 as [|x l Hx _ IH]; cbn; [reflexivity | now rewrite Hx]. Qed.
 Lemma cut_rows_filter e d : sorted_rows d = true -> forall i a b,
   d = a ++ b -> length a = i ->
   Forall (fun r => t_le (row_time r) e = false) b ->
-  Exists (fun r => t_le (row_time r) e = true) a ->
   cut_rows e d i = filter (fun r => t_le (row_time r) e) d.
 Proof.
-  intros Hsd. induction i as [|i IH]; intros a b E L Fb Ex.
-  - destruct a; [inversion Ex | discriminate].
+  intros Hsd. induction i as [|i IH]; intros a b E L Fb.
+  - destruct a; [|discriminate]. cbn [app] in E. subst d. cbn [cut_rows]. symmetry. now apply filter_none.
   - destruct (exists_last (l := a)) as (a' & r & Ea). { intros ->; discriminate. }
     subst a. rewrite app_length in L. cbn [length] in L. assert (La : length a' = i) by lia.
     assert (N : nth_error d i = Some r).
     { rewrite E, <- app_assoc, nth_error_app2 by lia. rewrite La, Nat.sub_diag. reflexivity. }
     cbn [cut_rows]. rewrite N.
     destruct (t_le (row_time r) e) eqn:R.
-    + (* the cut: everything up to r is <= e, everything after is > e *)
-      assert (Fa : Forall (fun q => t_le (row_time q) e = true) (a' ++ [r])).
+    + assert (Fa : Forall (fun q => t_le (row_time q) e = true) (a' ++ [r])).
       { apply Forall_app; split; [| now constructor].
         rewrite E, <- app_assoc in Hsd. cbn [app] in Hsd.
         pose proof (sorted_rows_app_le _ _ _ Hsd) as F.
@@ -299,15 +296,13 @@ Proof.
       * rewrite E, <- app_assoc. reflexivity.
       * exact La.
       * now constructor.
-      * apply Exists_app in Ex as [Ex|Ex]; [assumption|].
-        inversion Ex as [? ? Hr|? ? Hr]; subst; [congruence | inversion Hr].
 Qed.
 
 Theorem trim_rows_filter s e rows :
-  sorted_rows rows = true -> guard_trim s e rows = true ->
+  sorted_rows rows = true ->
   trim_rows s e rows = filter (in_range_row s e) rows.
 Proof.
-  intros S G. unfold trim_rows, guard_trim in *.
+  intros S. unfold trim_rows.
   destruct (drop_rows_suffix s rows) as (pre & E & Fpre).
   set (d := drop_rows s rows) in *.
   assert (Sd : sorted_rows d = true) by (rewrite E in S; eapply sorted_rows_app_r; eauto).
@@ -326,63 +321,14 @@ Proof.
     2:{ eapply Forall_impl; [|exact Fpre]. intros r Hr. unfold in_range_row. now rewrite Hr. }
     cbn [app]. apply filter_ext_in. intros r Hr. unfold in_range_row.
     rewrite Forall_forall in Fd. now rewrite (Fd r Hr). }
-  rewrite EQ.
-  destruct d as [|r0 [|r1 rest]] eqn:Ed.
-  - reflexivity.
-  - cbn [length Nat.leb filter]. now rewrite G.
-  - replace (length (r0 :: r1 :: rest) <=? 1)%nat with false by reflexivity.
-    apply (cut_rows_filter e _ Sd _ (r0 :: r1 :: rest) []).
-    + now rewrite app_nil_r.
-    + reflexivity.
-    + constructor.
-    + now constructor.
+  rewrite EQ. apply (cut_rows_filter e _ Sd _ d []); [now rewrite app_nil_r | reflexivity | constructor].
 Qed.
 
-(** outside the guard the code returns rows that are not in range: the exact failure *)
-Lemma trim_rows_outside_guard s e rows :
-  sorted_rows rows = true -> guard_trim s e rows = false ->
-  trim_rows s e rows = drop_rows s rows /\ drop_rows s rows <> [] /\ filter (in_range_row s e) rows = [].
-Proof.
-  intros S G. unfold trim_rows, guard_trim in *.
-  destruct (drop_rows_suffix s rows) as (pre & E & Fpre).
-  set (d := drop_rows s rows) in *.
-  assert (Sd : sorted_rows d = true) by (rewrite E in S; eapply sorted_rows_app_r; eauto).
-  destruct d as [|r0 rest] eqn:Ed; [discriminate|].
-  assert (Fall : Forall (fun r => t_le (row_time r) e = false) (r0 :: rest)).
-  { constructor; [exact G|]. pose proof (sorted_rows_head _ _ Sd) as F.
-    eapply Forall_impl; [|exact F]. intros b Hb.
-    destruct (t_le (row_time b) e) eqn:B; [|reflexivity].
-    rewrite (t_le_trans _ _ _ Hb B) in G. discriminate. }
-  split; [| split; [discriminate|]].
-  - destruct rest as [|r1 rest']; [reflexivity|].
-    replace (length (r0 :: r1 :: rest') <=? 1)%nat with false by reflexivity.
-    (* the backward loop never finds a row <= e *)
-    assert (C : forall i, cut_rows e (r0 :: r1 :: rest') i = r0 :: r1 :: rest').
-    { induction i as [|i IH]; [reflexivity|]. cbn [cut_rows].
-      destruct (nth_error (r0 :: r1 :: rest') i) as [r|] eqn:N; [|exact IH].
-      rewrite Forall_forall in Fall. rewrite (Fall r (nth_error_In _ _ N)). exact IH. }
-    apply C.
-  - rewrite E, filter_app.
-    rewrite (filter_none (in_range_row s e) pre).
-    2:{ eapply Forall_impl; [|exact Fpre]. intros r Hr. unfold in_range_row. now rewrite Hr. }
-    apply filter_none. eapply Forall_impl; [|exact Fall].
-    intros r Hr. unfold in_range_row. rewrite Hr. apply andb_false_r.
-Qed.
-
-(** byte level, inside and outside the guard *)
+(** byte level: trimResultsToRange on whole rows sorted by time is the range filter *)
 Theorem trim_range_filter plen s e rows :
-  Forall (wf_row plen) rows -> sorted_rows rows = true -> guard_trim s e rows = true ->
+  Forall (wf_row plen) rows -> sorted_rows rows = true ->
   trim_range s e (plen + 4) (enc_rows rows) = enc_rows (filter (in_range_row s e) rows).
 Proof.
-  intros W S G. rewrite (trim_range_refines plen s e rows W). f_equal.
-  exact (trim_rows_filter s e rows S G).
-Qed.
-
-Theorem trim_range_outside_guard plen s e rows :
-  Forall (wf_row plen) rows -> sorted_rows rows = true -> guard_trim s e rows = false ->
-  trim_range s e (plen + 4) (enc_rows rows) = enc_rows (drop_rows s rows)
-  /\ drop_rows s rows <> [] /\ filter (in_range_row s e) rows = [].
-Proof.
-  intros W S G. rewrite (trim_range_refines plen s e rows W).
-  destruct (trim_rows_outside_guard s e rows S G) as (A & B & C). rewrite A. auto.
+  intros W S. rewrite (trim_range_refines plen s e rows W). f_equal.
+  exact (trim_rows_filter s e rows S).
 Qed.
